@@ -71,14 +71,18 @@ def source_paths(case, name='m'):
     return {s['key']: '%s_%d.%s' % (name, i, s.get('kind', 'csv')) for i, s in enumerate(case['sources'])}
 
 
-def cli_outputs(ctx, cases, mode_dir, timeout=180):
+def cli_outputs(ctx, cases, mode_dir, timeout=180, sections=False):
     """Runs the CLI on each case; mode_dir False: output_file=out/kg ; True: output_dir=outd."""
     wd = common.workdir()
     jobs, dirs = [], []
     for i, c in enumerate(cases):
         d = os.path.join(wd, 'cli%d_%d' % (id(cases) % 10000, i))
         os.makedirs(d)
-        cfg = mapcase.materialise_files(c, d)
+        if sections and len(c['doc']) >= 2:
+            # every triples map in a data-source section of its own: a mapping group may then span several sections
+            cfg = mapcase.materialise_layout(c, d, [[[t['id']]] for t in c['doc']])
+        else:
+            cfg = mapcase.materialise_files(c, d)
         extra = 'output_dir=outd\n' if mode_dir else 'output_file=out/kg\n'
         cfg = cfg.replace('[CONFIGURATION]\n', '[CONFIGURATION]\n' + extra).replace('logging_level=ERROR', 'logging_level=INFO')
         jobs.append({'fn': 'cli_run', 'args': {'config': cfg, 'cwd': d, 'outputs': ['outd'] if mode_dir else ['out']}})
@@ -275,6 +279,21 @@ def run(ctx, res):
         for c, r in zip(sample, cli_outputs(ctx, sample, mode_dir)):
             res.evaluations += 1
             check_cli(res, c, r, mode_dir, known)
+    # (b') the same through several data-source sections (one triples map per section)
+    multi = [c for c in sample if len(c['doc']) >= 2 and not any(o['m']['k'] in ('parent', 'quoted') for t in c['doc'] for p in t.get('poms', []) for o in p['objs'])
+             and not any(t['subj']['k'] == 'quoted' for t in c['doc'])][:ctx.scale(25, 300)]
+    # directed: two triples maps in two sections that generate the very same statements (one mapping group spanning both sections)
+    for _ in range(ctx.scale(8, 60)):
+        c = gen_collision_case(ctx.rng)
+        t2 = json.loads(json.dumps(c['doc'][0])); t2['id'] = mapcase.EX + 'tm/TM1'
+        if ctx.rng.random() < 0.5:
+            s2 = json.loads(json.dumps(c['sources'][0])); s2['key'] = 'S1'; c['sources'].append(s2); t2['src'] = 'S1'      # another file with the same content
+        c['doc'].append(t2)
+        multi.append(c)
+    for c, r in zip(multi, cli_outputs(ctx, multi, False, sections=True)):
+        res.evaluations += 1
+        res.count('cli:sections')
+        check_cli(res, c, r, False, known)
     # replay of the recorded finding
     for f in ctx.known.values():
         rp = f.get('replay')
